@@ -725,6 +725,9 @@ class Discharger:
             return 'D4:prefix', 'prefix length returned by split_once on the same string (+ the 0/1 offset it was sliced at)'
         if 'split_ascii_whitespace' in r and first_colon or 'split_ascii_whitespace' in r:
             ok = any(a[0] == 'eq' and 'bytes' in repr(a[1]) for a in atoms(e.pc))
+            # the same test written as `text.starts_with(':')`
+            ok = ok or any('starts_with' in repr(a) and any(x in (('lit', ':'), ('lit', 58)) for x in subterms(a)) and entails(e.pc, Atom(a))[0]
+                           for a in atoms(e.pc))
             if ok:
                 return 'D4:ascii', 'the text starts with an ASCII colon, so a first token exists and offset 1 is a boundary'
         return None, 'tokeniser offset not justified'
